@@ -161,6 +161,51 @@ pub fn run_c12(ctx: &Ctx) -> i32 {
         extra.insert(format!("{}_build", build), json!({"worker_deaths": r.deaths, "max_peak_or_request_over_bound": r.max_mem_ratio_milli as f64 / 1000.0, "max_case": r.max_mem_case, "per_operator": per_operator_json(&r)}));
         total.merge(r.summary);
     }
+    // ---- both dimensions of the frame x layer table at the format maximum (65535 x 65536, a 4.2 MB well-formed file).
+    // The bound for this input is 34.4 GB, so the verdict needs an address-space limit above it: the probe runs alone,
+    // after the parallel stage, and only when the machine has the memory free (otherwise it is skipped and says so).
+    {
+        let avail_kib: u64 = std::fs::read_to_string("/proc/meminfo").ok().and_then(|t| t.lines().find(|l| l.starts_with("MemAvailable:")).and_then(|l| l.split_whitespace().nth(1).and_then(|x| x.parse().ok()))).unwrap_or(0);
+        let mut cr = CaseResult::default();
+        cr.nontrivial = true;
+        cr.feature = 0x7ab1e_u64;
+        if avail_kib >= 48 * 1024 * 1024 {
+            let out = std::process::Command::new(bin("ASEMON_BIN_RELEASE", "target/release/asemon")).arg("memprobe-max").arg("44").output();
+            match out {
+                Ok(o) => {
+                    let text = String::from_utf8_lossy(&o.stdout).to_string();
+                    let end = text.lines().find(|l| l.starts_with("MEMPROBE-END"));
+                    let field = |l: &str, k: &str| -> u64 { l.split_whitespace().find_map(|w| w.strip_prefix(k).and_then(|v| v.parse().ok())).unwrap_or(0) };
+                    cr.leaves = 1;
+                    match end {
+                        Some(l) => {
+                            let (peak, bound, largest) = (field(l, "peak="), field(l, "bound="), field(l, "largest="));
+                            cr.outcomes.push("extreme-table:measured".into());
+                            cr.count("extreme_table_peak_bytes", peak);
+                            cr.count("extreme_table_bound_bytes", bound);
+                            if !l.contains("result=Ok") {
+                                cr.violations.push(Violation::new("load-failed|model:sparse_cel_table_max", format!("the well-formed 65535-frame x 65536-layer sprite failed to load: {}", l)));
+                            } else if peak > bound || largest > bound {
+                                cr.violations.push(Violation::new("memory-bound|peak-live|model:sparse_cel_table_max", format!("well-formed sprite of 65536 layers x 65535 frames (one linked cel per frame on the top layer): peak live heap {} bytes, largest request {}, bound {} ({})", peak, largest, bound, l)).with_extra(json!({"mode": "mem", "build": "release", "operator": "model:sparse_cel_table_max"})));
+                            }
+                        }
+                        None => {
+                            use std::os::unix::process::ExitStatusExt;
+                            cr.outcomes.push("extreme-table:died".into());
+                            cr.violations.push(Violation::new("process-death|allocation-failure|load|model:sparse_cel_table_max", format!("loading the well-formed 65535-frame x 65536-layer sprite (4.2 MB, bound 34.4 GB) under a 44 GiB address-space limit ended the process: status {:?} signal {:?}; stderr: {}", o.status.code(), o.status.signal(), String::from_utf8_lossy(&o.stderr).lines().last().unwrap_or(""))).with_extra(json!({"mode": "mem", "build": "release", "operator": "model:sparse_cel_table_max"})));
+                        }
+                    }
+                }
+                Err(e) => cr.inconclusive = Some(format!("could not start the extreme-table probe: {}", e)),
+            }
+        } else {
+            cr.nontrivial = false;
+            cr.outcomes.push("extreme-table:skipped-less-than-48GiB-available".into());
+        }
+        let mut s = Summary::default();
+        s.absorb(0, cr);
+        total.merge(s);
+    }
     total.samples.push(json!({"monitor": "counting #[global_allocator]: live bytes / peak since arming / largest single request, armed around AsepriteFile::read on the 2 MiB case thread of an isolated worker; oversized requests announced by raw write(2) before being passed on", "bound": "64 MiB + 8192 bytes per input byte"}));
     finish(
         &Ctx { level: "fault_enumeration", ..ctx.clone() },
@@ -373,6 +418,26 @@ pub fn gen_corpus(ctx: &Ctx, args: &[String]) -> i32 {
 
 /// Diagnostic: well-formed sprite of n layers x n frames with one 1x1 cel per frame on the last layer;
 /// prints peak heap vs the C12 bound (run in a fresh process).
+/// `asemon memprobe-max <as-limit-gib>`: load the 65535-frame x 65536-layer sprite under an address-space limit
+/// and print what the allocation monitor saw. Run as a child process by C12 (an allocation failure aborts).
+pub fn memprobe_max(_ctx: &Ctx, args: &[String]) -> i32 {
+    let gib: u64 = args.first().and_then(|x| x.parse().ok()).unwrap_or(44);
+    let bytes = crate::hostile::sparse_table_max_bytes();
+    unsafe {
+        let lim = libc::rlimit { rlim_cur: gib << 30, rlim_max: gib << 30 };
+        libc::setrlimit(libc::RLIMIT_AS, &lim);
+        let nocore = libc::rlimit { rlim_cur: 0, rlim_max: 0 };
+        libc::setrlimit(libc::RLIMIT_CORE, &nocore);
+    }
+    let bound = mem_bound(bytes.len());
+    println!("MEMPROBE-START input={} bound={}", bytes.len(), bound);
+    crate::allocmon::arm(u64::MAX, -1);
+    let r = crate::util::load(&bytes).map(|a| (a.num_frames(), a.num_layers()));
+    let st = crate::allocmon::disarm();
+    println!("MEMPROBE-END input={} peak={} largest={} bound={} result={:?}", bytes.len(), st.peak, st.largest, bound, r.map_err(|e| e.to_string()));
+    0
+}
+
 pub fn memprobe(_ctx: &Ctx, args: &[String]) -> i32 {
     use crate::model::*;
     let n: usize = args.first().and_then(|x| x.parse().ok()).unwrap_or(1000);
